@@ -411,6 +411,20 @@ impl Ctx {
             out_lines.push(format!("VIOLATION property={} replay={}", self.prop, path));
             violations += 1;
         }
+        // known findings: one line per listed finding of this property, with the number of
+        // cases of this run that were excluded from the search because they hit it
+        for (p, sig, text) in &self.known {
+            if *p != self.prop {
+                continue;
+            }
+            let key = format!("KNOWN {}", sig);
+            let hits: u64 = self.subs.iter().map(|s| *s.classes.get(&key).unwrap_or(&0)).sum();
+            let line = format!("KNOWN-FINDING: {} [cases excluded in this run: {}]", text, hits);
+            if !self.known_hit.iter().any(|l| l.contains(text.as_str())) {
+                self.known_hit.push(line.clone());
+                out_lines.push(line);
+            }
+        }
         let evaluations: u64 = self.subs.iter().map(|s| s.evaluations).sum();
         let nontrivial: usize = self.subs.iter().map(|s| s.nontrivial.len()).sum();
         let mut samples: Vec<Value> = Vec::new();
